@@ -16,7 +16,9 @@ package main
 // snapshot with the same tree ID.  End oracle (copy succeeded): every source
 // snapshot has a destination snapshot with the same tree ID, time, host, tags
 // and content; then copy runs again (ungated) and must not save or remove any
-// destination file (idempotent).
+// destination file (idempotent).  Every distinct crash state is also continued
+// the way a user recovers: locks removed, real `repair index` on the destination,
+// copy again - the destination must then hold complete copies of all snapshots.
 
 import (
 	"context"
@@ -206,6 +208,38 @@ func TestVerif_C32(t *testing.T) {
 		return probs
 	}
 
+	recovered := map[string]bool{}
+	recover := func(ctx context.Context, st gatebe.State) []string {
+		st = st.Clone()
+		for k := range st {
+			if k.Type == backend.LockFile {
+				delete(st, k)
+			}
+		}
+		store := gatebe.NewStoreFrom(st, nil)
+		if key := store.StateKey(st); recovered[key] {
+			return nil
+		} else {
+			recovered[key] = true
+		}
+		r.Count("crash_states_followed_by_repair_index_and_second_copy", 1)
+		be := &gatebe.Backend{S: store, Proc: "recover", Conns: 3, AtomicReplace: true}
+		gopts := verifGopts(t, r.Scratch, be, oracle.Password)
+		if err := verifRun(t, ctx, gopts, func(ctx context.Context, gopts global.Options) error {
+			return runRebuildIndex(ctx, RepairIndexOptions{}, gopts, gopts.Term)
+		}); err != nil {
+			return []string{"snapshot: repair index on the destination of an interrupted copy failed: " + err.Error()}
+		}
+		if err := copyOnce(ctx, r.Scratch, be); err != nil {
+			return []string{"snapshot: copy after an interrupted copy + repair index failed: " + err.Error()}
+		}
+		var probs []string
+		for _, p := range dstOracle(ctx, store.Snapshot(), true) {
+			probs = append(probs, "after interrupted copy, repair index and a second copy: "+p)
+		}
+		return probs
+	}
+
 	bound := vh.Pick(r, 1, 2)
 	seen := map[string]bool{}
 	for _, v := range variants {
@@ -225,7 +259,12 @@ func TestVerif_C32(t *testing.T) {
 			},
 			NoFaultFailureIsViolation: true,
 			StateOracle: func(ctx context.Context, c crashx.Crash) []string {
-				return dstOracle(ctx, c.State, false)
+				if probs := dstOracle(ctx, c.State, false); len(probs) > 0 {
+					return probs
+				}
+				// what a user does after an interrupted copy: unlock, repair index (the uploaded packs become
+				// known to the destination index), copy again - the result must be a complete copy
+				return recover(ctx, c.State)
 			},
 			EndOracle: func(ctx context.Context, run *crashx.Run) []string {
 				if !run.Done || run.Err != nil {
